@@ -24,7 +24,7 @@ QUOTES = ['"quoted', 'phrase"', "'single", "q'", '"word"', "'w'", "it's", "Jones
           '("paren")', '"end."', "'tis", "rock'n'roll", '""', "''", '"', "'", 'say:"x"', '"q"?', "’already’", "“curly”", "don't", "dogs'", "'90s", '"Hello,"',
           "'end.'", "'stop!'", "said.'", "word.'", '"done."', "'really?'", "disaster.'",
           '"`code`"', "'*em*'", '"[l](u)"', '**"bold"**', '"{{ v }}"', "{% t a='b' %}'s"]
-DOTS = ["...", "wait...", "...and", "a...b", "....", "..", "x....y", "end...", '"...', '..."', "...,", "(...)", "...)", "1...", "…", "word…", "... ...", "......",
+DOTS = ['"wait"...', "'x'...", '"a"...and', "(\"q\")...", "...", "wait...", "...and", "a...b", "....", "..", "x....y", "end...", '"...', '..."', "...,", "(...)", "...)", "1...", "…", "word…", "... ...", "......",
         "`...`", "[...](u)", "*...*", "-...", "...!", "...?"]
 
 def words(feat):
